@@ -296,7 +296,14 @@ def rand_const(rng):
 
 
 def rand_expr(rng, syms, functions=True):
-    """ Expression over syms that certainly contains syms[0]... some symbol. """
+    """ Expression over syms that certainly contains a symbol. """
+    expr = _rand_expr(rng, syms, functions)
+    if not getattr(expr, "free_symbols", None):
+        return rng.choice(syms)
+    return expr
+
+
+def _rand_expr(rng, syms, functions=True):
     x = rng.choice(syms)
     others = [s for s in syms if s != x] or [x]
     y = rng.choice(others)
@@ -733,6 +740,13 @@ def attribute_changes(ctx, d, new, base):
                 same = bool(old == cur)
             except Exception:
                 same = False
+            if not same and box_view(old) == box_view(cur):
+                try:
+                    vectors, _ = payload_vectors([old.data], [cur.data], [{}])
+                    same = vectors is not None and all(
+                        sym.close(x, y) for x, y in vectors)
+                except Exception:
+                    same = False
             if not same:
                 mine.append([a["cls"], "untouched-box-equal", safe_repr(old, 80),
                              safe_repr(cur, 80), op])
@@ -1067,9 +1081,14 @@ def one_lambdify(ctx, rng, arm, d, drepr, classes, present, evaluable, mixed,
     present = sym.sort_symbols(present)
     xs = list(present)
     rng.shuffle(xs)
-    r = rng.random()
-    if r < 0.3 and len(xs) > 1:
-        xs = xs[:rng.randint(1, len(xs) - 1)]
+    if rng.random() < 0.3 and len(xs) > 1:
+        # a strict subset, only if no box is left half-substituted (partial
+        # lambdify inside one box depends on sympy's namespace handling)
+        subset = set(xs[:rng.randint(1, len(xs) - 1)])
+        if all(sym.box_symbols(b) <= subset or not (sym.box_symbols(b) & subset)
+               for b in d.boxes):
+            xs = [x for x in xs if x in subset]
+            ctx.count("lambdify-on-a-strict-subset")
     if rng.random() < 0.2:
         xs.insert(rng.randint(0, len(xs)), _S["fresh"][0])
     vs = [rand_value(rng, rng.choice(["float", "float", "int"])) for _ in xs]
